@@ -184,7 +184,7 @@ func main() {
 		"evaluations": tot.Evals, "cases": tot.Cases, "absolute_grid_cases": tot.AbsCases, "relative_grid_cases": tot.RelCases,
 		"distinct_nontrivial": len(canon),
 		"rule": "every text of the product scheme x userinfo x host x port x path x query x fragment x wrapper (x parent) and every relative reference " +
-			"(all segment sequences up to the depth x leading/trailing slash x query x fragment x wrapper, plus query-only, fragment-only, empty, scheme-relative) x 6 parents " +
+			"(all segment sequences up to the depth x leading/trailing slash x query x fragment x wrapper, plus query-only, fragment-only, empty, scheme-relative) x 10 parents " +
 			"is evaluated on fresh objects under every iteration order of the query map, twice more in the default order, and its canonical strings are normalised again; " +
 			"evaluations = calls of NormalizeURL; a case is non-trivial when it is accepted and its canonical String() differs from the input text, " +
 			"distinct_nontrivial = number of distinct such canonical strings (FNV-64 of the string, merged over shards)",
